@@ -136,23 +136,72 @@ def SoundU₂ (f : Value → Value → Res Value) : Prop :=
 theorem flat_unmark {w : Value} (h : w.flatMarks = true) : w.unmark.isMarked = false := by
   simpa [Value.flatMarks] using h
 
-theorem sound_unMarks {f : Value → Res Value} (h : SoundU₁ f) : Sound₁ (unMarks f) := by
+theorem wfc_flat {w : Value} (h : w.wfc = true) : w.flatMarks = true := by
+  simp only [Value.wfc, Bool.and_eq_true] at h; exact h.1.1.1
+theorem wfc_ty {w : Value} (h : w.wfc = true) : w.ty.wf = true := by
+  simp only [Value.wfc, Bool.and_eq_true] at h; exact h.1.1.2
+theorem wfc_dynOK {w : Value} (h : w.wfc = true) : w.dynOK = true := by
+  simp only [Value.wfc, Bool.and_eq_true] at h; exact h.1.2
+theorem wfc_lenFits {w : Value} (h : w.wfc = true) : w.lenFits = true := by
+  simp only [Value.wfc, Bool.and_eq_true] at h; exact h.2
+
+theorem unmark_of_not_marked {a : Value} (h : a.isMarked = false) : a.unmark = a := by
+  obtain ⟨t, p⟩ := a
+  cases p <;> simp_all [Value.unmark, Payload.unmark1, Value.isMarked, Payload.isMarked]
+
+theorem wfc_unmark {w : Value} (h : w.wfc = true) : w.unmark.wfc = true := by
+  have hf := flat_unmark (wfc_flat h)
+  have hty := wfc_ty h
+  have hd := wfc_dynOK h
+  have hl := wfc_lenFits h
+  simp only [Value.wfc, Bool.and_eq_true]
+  refine ⟨⟨⟨?_, hty⟩, ?_⟩, ?_⟩
+  · simp [Value.flatMarks, unmark_of_not_marked hf, hf]
+  · obtain ⟨t, p⟩ := w
+    cases p <;> try (simpa [Value.dynOK, Value.unmark, Payload.unmark1, Value.isKnown, Payload.isKnown, Value.isNull, Payload.isNull] using hd)
+    rename_i ms r
+    cases r <;> simp_all [Value.dynOK, Value.unmark, Payload.unmark1, Value.isKnown, Payload.isKnown, Value.isNull,
+      Payload.isNull, Value.isMarked, Payload.isMarked]
+  · obtain ⟨t, p⟩ := w
+    cases p <;> try (simpa [Value.lenFits, Value.unmark, Payload.unmark1] using hl)
+    rename_i ms r
+    cases r <;> simp_all [Value.lenFits, Value.unmark, Payload.unmark1, Value.isMarked, Payload.isMarked]
+
+/-- soundness on operands without a marker at the top, given the representation invariants -/
+def SoundUW₁ (f : Value → Res Value) : Prop :=
+  ∀ o w r, o.whollyKnown = true → o.isMarked = false → w.isMarked = false → o.wfc = true → w.wfc = true →
+    CoversX w o = true → f o = .ok r → ∃ r', f w = .ok r' ∧ Covers r' r = true
+def SoundUW₂ (f : Value → Value → Res Value) : Prop :=
+  ∀ o₁ o₂ w₁ w₂ r, o₁.whollyKnown = true → o₂.whollyKnown = true →
+    o₁.isMarked = false → o₂.isMarked = false → w₁.isMarked = false → w₂.isMarked = false →
+    o₁.wfc = true → o₂.wfc = true → w₁.wfc = true → w₂.wfc = true →
+    CoversX w₁ o₁ = true → CoversX w₂ o₂ = true → f o₁ o₂ = .ok r →
+    ∃ r', f w₁ w₂ = .ok r' ∧ Covers r' r = true
+
+theorem SoundU₁.toW {f : Value → Res Value} (h : SoundU₁ f) : SoundUW₁ f :=
+  fun o w r hk hmo hmw _ _ hc ho => h o w r hk hmo hmw hc ho
+theorem SoundU₂.toW {f : Value → Value → Res Value} (h : SoundU₂ f) : SoundUW₂ f :=
+  fun o₁ o₂ w₁ w₂ r hk₁ hk₂ a b c d _ _ _ _ hc₁ hc₂ ho => h o₁ o₂ w₁ w₂ r hk₁ hk₂ a b c d hc₁ hc₂ ho
+
+theorem sound_unMarks {f : Value → Res Value} (h : SoundUW₁ f) : Sound₁ (unMarks f) := by
   intro o w r hk hfo hf hc ho
   rw [unMarks_eq] at ho ⊢
   obtain ⟨r0, h0, rfl⟩ := res_map_ok ho
-  obtain ⟨r', h1, h2⟩ := h o.unmark w.unmark r0 (by rw [whollyKnown_unmark]; exact hk) (flat_unmark hfo) (flat_unmark hf)
+  obtain ⟨r', h1, h2⟩ := h o.unmark w.unmark r0 (by rw [whollyKnown_unmark]; exact hk)
+    (flat_unmark (wfc_flat hfo)) (flat_unmark (wfc_flat hf)) (wfc_unmark hfo) (wfc_unmark hf)
     (by rw [coversX_unmark_left, coversX_unmark_right]; exact hc) h0
   refine ⟨_, by rw [h1]; rfl, ?_⟩
   by_cases ha : o.isMarked = true <;> by_cases hb : w.isMarked = true <;>
     simp [ha, hb, covers_withMarks_left, covers_withMarks_right, h2]
 
-theorem sound_binMarks {f : Value → Value → Res Value} (h : SoundU₂ f) : Sound₂ (binMarks f) := by
+theorem sound_binMarks {f : Value → Value → Res Value} (h : SoundUW₂ f) : Sound₂ (binMarks f) := by
   intro o₁ o₂ w₁ w₂ r hk₁ hk₂ hfo₁ hfo₂ hf₁ hf₂ hc₁ hc₂ ho
   rw [binMarks_eq] at ho ⊢
   obtain ⟨r0, h0, rfl⟩ := res_map_ok ho
   obtain ⟨r', h1, h2⟩ := h o₁.unmark o₂.unmark w₁.unmark w₂.unmark r0
     (by rw [whollyKnown_unmark]; exact hk₁) (by rw [whollyKnown_unmark]; exact hk₂)
-    (flat_unmark hfo₁) (flat_unmark hfo₂) (flat_unmark hf₁) (flat_unmark hf₂)
+    (flat_unmark (wfc_flat hfo₁)) (flat_unmark (wfc_flat hfo₂)) (flat_unmark (wfc_flat hf₁)) (flat_unmark (wfc_flat hf₂))
+    (wfc_unmark hfo₁) (wfc_unmark hfo₂) (wfc_unmark hf₁) (wfc_unmark hf₂)
     (by rw [coversX_unmark_left, coversX_unmark_right]; exact hc₁)
     (by rw [coversX_unmark_left, coversX_unmark_right]; exact hc₂) h0
   refine ⟨_, by rw [h1]; rfl, ?_⟩
